@@ -494,3 +494,130 @@ def gen_values(rng, tier, hist, per_kind=None):
             for _ in range(4):
                 out.append((kind, g.value(kind, big=True)))
     return out
+
+
+# ---------------------------------------------------------------- adversarial byte strings (C05, C04)
+COUNT_EDGES = [-1, 0, 1, 2, 2 ** 31 - 1, 2 ** 31, 2 ** 32, 2 ** 59, 2 ** 61, 2 ** 63 - 1, -2 ** 63, -2]
+
+
+def _i64(v, le=False):
+    return struct.pack("<q" if le else ">q", v)
+
+
+def _rb(rng, n):
+    return bytes(rng.getrandbits(8) for _ in range(n))
+
+
+def boundary_payloads(kind, rng):
+    """Payloads whose embedded count / length fields take every boundary value
+    (negative, 0, 1, exact fit, exact fit + 1, 2^31, 2^61, 2^63-1 ...) while the body
+    holds room for `fit` entries."""
+    out = []
+    fits = [0, 1, 2, 3]
+    if kind in ("v2.beat", "v1.beat"):
+        hdr = _rb(rng, 16) + b"\x01"
+        for fit in fits:
+            body = b"".join(struct.pack("<dqii", 100.0 * i, 4 * i, 4 if i + 1 < fit else 0, 0) for i in range(fit))
+            for c in COUNT_EDGES + [fit, fit + 1, fit - 1]:
+                # boundary in the first grid (second grid empty), then in the second grid
+                out.append(hdr + _i64(c) + body + _i64(0))
+                out.append(hdr + _i64(c) + body)                       # second count missing
+                out.append(hdr + _i64(0) + _i64(c) + body)
+                out.append(hdr + _i64(fit) + body + _i64(c))
+                out.append(hdr + _i64(0) + _i64(c) + body + bytes(9))
+                out.append(hdr + _i64(c) + body + _i64(0) + b"\x00\x01")
+    elif kind in ("v2.cues", "v1.cues"):
+        tail = _rb(rng, 8) + rng.choice([b"\x00", b"\x01", b"\x02"]) + _rb(rng, 8)
+        for fit in fits:
+            for lab in (0, 1, 5, 255):
+                ent = b"".join(bytes([lab]) + _rb(rng, lab) + struct.pack(">d", 10.0 * i) + _rb(rng, 4)
+                               for i in range(fit))
+                for c in COUNT_EDGES + [fit, fit + 1, fit - 1]:
+                    out.append(_i64(c) + ent + tail)
+                    out.append(_i64(c) + ent + tail[:-1])
+                    out.append(_i64(c) + ent + tail + b"\x07")
+            # label-length byte boundaries on a single entry
+            for L in (0, 1, 2, 254, 255):
+                for have in (0, max(L - 1, 0), L, L + 1):
+                    out.append(_i64(1) + bytes([L]) + _rb(rng, have) + _rb(rng, 12) + tail)
+    elif kind in ("v2.loops", "v1.loops"):
+        for fit in fits:
+            for lab in (0, 1, 5, 255):
+                ent = b"".join(bytes([lab]) + _rb(rng, lab) + struct.pack("<dd", 10.0 * i, 20.0 * i) +
+                               rng.choice([b"\x01\x01", b"\x00\x00", b"\x02\xff"]) + _rb(rng, 4) for i in range(fit))
+                for c in COUNT_EDGES + [fit, fit + 1, fit - 1]:
+                    out.append(_i64(c, True) + ent)
+                    out.append(_i64(c, True) + ent + b"\x00")
+                    out.append(_i64(c, True) + ent[:-1])
+            for L in (0, 1, 2, 254, 255):
+                for have in (0, max(L - 1, 0), L, L + 1):
+                    out.append(_i64(1, True) + bytes([L]) + _rb(rng, have) + _rb(rng, 22))
+                    out.append(_i64(1, True) + bytes([L]) + _rb(rng, have) + _rb(rng, 21))
+    elif kind in ("v2.ovw", "v1.ovw", "v1.hires"):
+        w = 6 if kind == "v1.hires" else 3
+        for fit in fits + [10]:
+            body = _rb(rng, w * fit)
+            mx = _rb(rng, w)
+            spe = struct.pack(">d", 1024.0)
+            for c in COUNT_EDGES + [fit, fit + 1, fit - 1]:
+                out.append(_i64(c) + _i64(c) + spe + body + mx)
+                out.append(_i64(c) + _i64(c) + spe + body)               # maximum entry missing
+                out.append(_i64(c) + _i64(c) + spe + body + mx + b"\x00")
+                out.append(_i64(c) + _i64(fit) + spe + body + mx)        # conflicting counts
+                out.append(_i64(fit) + _i64(c) + spe + body + mx)
+                out.append(_i64(c) + _i64(c) + spe + body + mx[:-1])
+    elif kind == "v2.track":
+        for n in (0, 1, 43, 44, 45, 53, 100):
+            out.append(_rb(rng, n))
+    elif kind == "v1.track":
+        for n in (0, 1, 27, 28, 29, 44):
+            out.append(_rb(rng, n))
+            out.append(bytes(n))
+    return out
+
+
+def truncations_and_corruptions(payload, rng, all_positions=True, max_len=400):
+    """every prefix, and single-byte corruptions at every position"""
+    out = []
+    p = payload[:max_len] if len(payload) > max_len else payload
+    for n in range(len(p)):
+        out.append(p[:n])
+    pos = range(len(p)) if all_positions else sorted(rng.sample(range(len(p)), min(len(p), 40)))
+    for i in pos:
+        b = bytearray(p)
+        for how in (0, 1, 2, 3):
+            c = bytearray(b)
+            if how == 0:
+                c[i] ^= 1
+            elif how == 1:
+                c[i] ^= 0x80
+            elif how == 2:
+                c[i] = 0xff
+            else:
+                c[i] = 0
+            if bytes(c) != p:
+                out.append(bytes(c))
+    return out
+
+
+def mutate(p, rng):
+    b = bytearray(p)
+    for _ in range(rng.choice([1, 1, 2, 3, 6])):
+        m = rng.random()
+        if m < 0.35 and b:
+            b[rng.randrange(len(b))] = rng.getrandbits(8)
+        elif m < 0.5 and b:
+            i = rng.randrange(len(b))
+            del b[i:i + rng.choice([1, 1, 2, 8, 24])]
+        elif m < 0.65:
+            i = rng.randrange(len(b) + 1)
+            b[i:i] = _rb(rng, rng.choice([1, 1, 2, 8, 13, 23, 24]))
+        elif m < 0.8 and len(b) >= 8:
+            i = rng.randrange(0, len(b) - 7)
+            b[i:i + 8] = _i64(rng.choice(COUNT_EDGES + [3, 8, 9]), rng.random() < 0.5)
+        elif m < 0.9 and b:
+            i = rng.randrange(len(b))
+            b[i:i] = b[i:i + rng.choice([13, 23, 24, 3, 6])]
+        else:
+            b = b[:rng.randrange(len(b) + 1)]
+    return bytes(b)
